@@ -289,6 +289,8 @@ func hasRealReferrers(v ssa.Value) bool {
 }
 
 func runC14(w *World, c *Check) {
+	c.Rule("C14.stateless", "parsing, writing and searching a keytab touch no package-level state (on this tree: the package keeps none): byte order and cursor of one call cannot be changed by another", 2)
+	ruleStatelessIn(w, c, "C14.stateless", "keytab", "a keytab function")
 	c.Rule("C14.layout", "reader and writer follow the MIT keytab format field by field (widths, order, version conditions, loops) and agree with each other", 28)
 	c.Rule("C14.endian", "integers are big-endian except in version 1 on a little-endian host, selected identically by reader and writer", 4)
 	c.Rule("C14.holes", "records with a negative length are skipped, not parsed; parsing stops at a zero length; a hole may be the last record", 3)
